@@ -2,6 +2,7 @@ package c16
 
 import (
 	"fmt"
+	"sort"
 	"strings"
 	"testing"
 
@@ -256,6 +257,38 @@ func check(c Case) hx.Verdict {
 				return bad("parent", i, par.JSON(), e.par.JSON())
 			}
 		}
+	}
+	// key nodes (`...`): the key of a map entry sits where its value sits
+	if kp, ok := evalOne(root+" | [... | select(is_key) | path]", c.Doc); ok.OK() && kp != nil {
+		var want, got []string
+		for _, e := range exp {
+			if len(e.path) > 0 && !e.seq[len(e.seq)-1] {
+				want = append(want, strings.Join(append(append([]string{}, pC...), e.path...), "/"))
+			}
+		}
+		staleIdx := false
+		for _, x := range kp.Elem {
+			p, _ := pathElems(x)
+			got = append(got, strings.Join(p, "/"))
+		}
+		sort.Strings(want)
+		sort.Strings(got)
+		if strings.Join(want, "\n") != strings.Join(got, "\n") {
+			// index elements inside the path of a key fall under the stale-index finding; only a wrong map key element or prefix counts here
+			for _, e := range exp {
+				for _, sq := range e.seq {
+					if sq {
+						staleIdx = true
+					}
+				}
+			}
+			if !staleIdx {
+				return hx.Bad("", "key nodes under the value of %s report paths %v, expected %v: doc=%s", root, got, want, c.Doc)
+			}
+			stale = true
+		}
+	} else if ok.Crashed() {
+		return hx.Bad("panic-site:"+ok.PanicSite, "panic %s", ok.Panic)
 	}
 	// keys of containers
 	ci := 0
